@@ -242,6 +242,16 @@ def stage_and_check(run, AH, truth, flags, tracers, chunk, n_chunks, desc):
     if obj is None:
         return True
     hd, pd = obj.halo_data, obj.particle_data
+    # the object staged before this one keeps its own data (nothing shared between objects)
+    prev = getattr(stage_and_check, '_prev', None)
+    if prev is not None:
+        for name, snap in prev[1].items():
+            cur = prev[0].halo_data.get(name) if name in prev[0].halo_data else prev[0].particle_data.get(name)
+            if cur is None or not np.array_equal(np.asarray(cur), snap, equal_nan=True):
+                run.violation('staging-earlier-object-changed', dict(array=name, earlier_case=prev[2], **desc))
+                break
+        run.count('earlier_objects_rechecked')
+    stage_and_check._prev = (obj, {n: np.array(v) for n, v in list(hd.items())[:6] + list(pd.items())[:4] if isinstance(v, np.ndarray)}, desc.get('case'))
     nslab = len(truth['slabs'])
     n_jump = int(np.ceil(nslab / n_chunks))
     c = 0 if chunk == -1 else chunk
